@@ -32,13 +32,21 @@ type loopInfo struct {
 	writes   map[string][]ssa.Value
 	unknownW map[string]bool
 	callArgs []ssa.Value // arguments of calls with unknown effects inside the loop
+	rangeObj *freshObj   // the objects allocated by earlier iterations
+	entryWM  string      // allocation watermark when the loop was entered
 }
 
 type deferRec struct {
-	call *ssa.Defer
-	fn   Val
-	args []Val
+	call     *ssa.Defer
+	fn       Val
+	args     []Val
+	cond     string
+	recovers bool // the deferred closure calls recover()
+}
+
+type panicExit struct {
 	cond string
+	st   *State
 }
 
 // Frame is one activation (top-level or inlined).
@@ -60,7 +68,10 @@ type Frame struct {
 	loops           map[*ssa.BasicBlock]*loopInfo
 	inLoop          map[*ssa.BasicBlock][]*loopInfo
 	defers          []deferRec
-	onPanic         func(cond, kind, anchor string)
+	onPanic         func(cond, kind, anchor string, st *State)
+	panicExits      []panicExit
+	panicMode       bool
+	recoverVal      string
 	names           map[string][]ssa.Value // debug names
 	rangeVis        map[*ssa.Range]string
 	rangeVisCur     map[*ssa.Range]string
@@ -337,6 +348,18 @@ func (f *Frame) checkHeapWrite(heap, ptr string, prov provSet, anchor string) {
 		}
 	}
 	for _, pr := range f.st.published {
+		if pr.obj.isRange {
+			inHeap := false
+			for _, h := range pr.obj.rheaps {
+				if h == heap {
+					inHeap = true
+				}
+			}
+			if inHeap {
+				f.oblige("store_after_publish", anchor, implies(and(f.pc, pr.cond), not("(and (<= "+pr.obj.lo+" "+ptr+") (< "+ptr+" "+pr.obj.hi+"))")), nil, "")
+			}
+			continue
+		}
 		if pr.obj.heap != heap {
 			continue
 		}
@@ -505,7 +528,23 @@ func findLoops(fn *ssa.Function) (map[*ssa.BasicBlock]*loopInfo, map[[2]*ssa.Bas
 	for h := range loops {
 		heads = append(heads, h)
 	}
-	sort.Slice(heads, func(i, j int) bool { return loopPos(heads[i]) < loopPos(heads[j]) })
+	bodyPos := func(li *loopInfo) int {
+		// earliest source position of any (non-phi) instruction of the loop
+		best := 1 << 50
+		for b := range li.blocks {
+			if p := loopPos(b); p < best {
+				best = p
+			}
+		}
+		return best
+	}
+	sort.Slice(heads, func(i, j int) bool {
+		pi, pj := bodyPos(loops[heads[i]]), bodyPos(loops[heads[j]])
+		if pi != pj {
+			return pi < pj
+		}
+		return heads[i].Index < heads[j].Index
+	})
 	for i, h := range heads {
 		loops[h].ordinal = i + 1
 	}
@@ -516,21 +555,13 @@ func findLoops(fn *ssa.Function) (map[*ssa.BasicBlock]*loopInfo, map[[2]*ssa.Bas
 func loopPos(b *ssa.BasicBlock) int {
 	best := token.NoPos
 	for _, in := range b.Instrs {
+		switch in.(type) {
+		case *ssa.Phi, *ssa.DebugRef:
+			continue // a phi carries the position of its variable's declaration, not of the loop
+		}
 		if p := in.Pos(); p.IsValid() {
 			if best == token.NoPos || p < best {
 				best = p
-			}
-		}
-	}
-	if best == token.NoPos {
-		// look at the loop body entry
-		for _, s := range b.Succs {
-			for _, in := range s.Instrs {
-				if p := in.Pos(); p.IsValid() {
-					if best == token.NoPos || p < best {
-						best = p
-					}
-				}
 			}
 		}
 	}
@@ -574,6 +605,60 @@ func (f *Frame) run(entry *State, entryPC string) {
 			}
 		}
 		f.execBlock(b, back)
+	}
+	f.runPanicExits(back)
+}
+
+// raise: a panic happens under cond. Deferred closures of this frame that call
+// recover() catch it (control continues in the function's recover block);
+// otherwise it propagates to the caller frame / the top-level handler.
+func (f *Frame) raise(cond, kind, anchor string) {
+	var catch []string
+	for _, d := range f.defers {
+		if d.recovers {
+			catch = append(catch, d.cond)
+		}
+	}
+	caught := and(cond, or(catch...))
+	if len(catch) > 0 && caught != "false" {
+		f.panicExits = append(f.panicExits, panicExit{caught, f.st.clone()})
+		cond = and(cond, not(or(catch...)))
+	}
+	if cond != "false" {
+		f.onPanic(cond, kind, anchor, f.st)
+	}
+}
+
+// runPanicExits: the paths on which a panic was caught run the deferred calls
+// with recover() != nil and then leave through the function's recover block.
+func (f *Frame) runPanicExits(back map[[2]*ssa.BasicBlock]bool) {
+	if len(f.panicExits) == 0 || f.dead {
+		return
+	}
+	ex := f.ex
+	var ins []mergeIn
+	var conds []string
+	for _, pe := range f.panicExits {
+		ins = append(ins, mergeIn{pe.cond, pe.st})
+		conds = append(conds, pe.cond)
+	}
+	f.panicExits = nil
+	f.pc = ex.def(f.pfx+"pc", "Bool", or(conds...))
+	f.st = f.mergeStates(ins)
+	rv := ex.decl(f.pfx+"recovered", "Any")
+	ex.assume("(not (= " + rv + " nil.Any))")
+	f.panicMode, f.recoverVal = true, rv
+	f.runDefers()
+	f.panicMode = false
+	if f.fn.Recover != nil {
+		f.execBlock(f.fn.Recover, back)
+	} else {
+		var vals []Val
+		res := f.fn.Signature.Results()
+		for i := 0; i < res.Len(); i++ {
+			vals = append(vals, Val{T: ex.S.zero(res.At(i).Type()), Typ: res.At(i).Type(), NF: true})
+		}
+		f.rets = append(f.rets, retRec{pc: f.pc, vals: vals, st: f.st.clone()})
 	}
 }
 
@@ -625,7 +710,7 @@ func (f *Frame) execBlock(b *ssa.BasicBlock, back map[[2]*ssa.BasicBlock]bool) {
 			}
 			f.rets = append(f.rets, retRec{pc: f.pc, vals: vals, st: f.st.clone()})
 		case *ssa.Panic:
-			f.onPanic(f.pc, "explicit_panic", fmt.Sprintf("b%d", 0)+panicAnchor(x))
+			f.raise(f.pc, "explicit_panic", fmt.Sprintf("b%d", 0)+panicAnchor(x))
 		default:
 			f.execInstr(in)
 		}
